@@ -949,6 +949,14 @@ def run_history(mon, run, mesh_tag, base, steps, seed_for_mut):
         # in between must leave the same vertices and faces
         if not mname.startswith("observer:") and arrays_depend_on_reads(mon, run, mesh_tag, base, steps[: len(hist)], seed_for_mut, m, hist):
             break
+        if scale_of(m)["s"] < 2e-6:
+            # compositions of the tiny similarity classes (1e-3 x 1e-6 ...) shrink the mesh below the
+            # resolution the library documents (triangle cross products under tol.zero = 1e-13 are
+            # "degenerate", normals zero, facets empty): a FRESH mesh of that size reports those
+            # documented degenerate answers while carried values are the exact ones - neither is
+            # stale.  One tiny step (extent ~4e-6) stays judged.  (thorough tier, seed 0)
+            run.skip("mesh shrunk below the library's documented resolution: history ends")
+            break
         if not observe:
             # a SILENT step: nothing is read between this mutator and the next one, so values
             # cached before it are still sitting in the cache when the next mutator runs
